@@ -74,9 +74,43 @@ func (p c02) ppCycle(c *core.Ctx) {
 	c.Nontrivial("ppcycle|" + g.Sc.GraphSig())
 }
 
+// longRing: one cycle (or chain) through 100..400 components: every member is in creation at the same time
+// when the refresh enters it; it resolves like a short one.
+func (p c02) longRing(c *core.Ctx) {
+	n := []int{100, 127, 128, 129, 130, 200, 257, 400}[c.Rng.Intn(8)]
+	g := world.NewG(c.Rng)
+	for i := 0; i < n; i++ {
+		g.AddRandomNode(plainAny, 0)
+	}
+	closed := c.Rng.Intn(3) > 0
+	for i := 0; i < n; i++ {
+		if i == n-1 && !closed {
+			break // a chain
+		}
+		g.EdgeByName(i, (i+1)%n, "")
+	}
+	g.ShuffleOrders()
+	r := world.Start(g.Sc, world.Options{})
+	c.Count("starts", 1)
+	c.Count("long_ring_starts", 1)
+	problems, _ := evalAgainstModel(r, true)
+	if r.Outcome() != "ok" && len(problems) == 0 {
+		problems = append(problems, problem{Kind: "unexpected-error", Msg: "a ring of " + fmt.Sprint(n) + " components did not start: " + core.Short(r.OutcomeDetail(), 300)})
+	}
+	if len(problems) > 0 {
+		c.Fail("", fmt.Sprintf("%d components on one %s: %s", n, map[bool]string{true: "cycle", false: "chain"}[closed], problems[0].Msg), map[string]any{"components": n, "closed": closed, "problems": msgs(problems)})
+		return
+	}
+	c.Nontrivial(fmt.Sprintf("longring|%d|%v", n, closed))
+}
+
 func (p c02) Run(c *core.Ctx) {
 	if c.Index >= p.enumCount(c.Tier) && c.Index%40 == 17 { // (the enumerated part stays complete)
 		p.ppCycle(c)
+		return
+	}
+	if c.Index >= p.enumCount(c.Tier) && c.Index%100 == 57 {
+		p.longRing(c)
 		return
 	}
 	transientFaults := false
